@@ -18,6 +18,10 @@ import z3
 PROVE_TIMEOUT_MS = int(os.environ.get("PYDV_PROVE_TIMEOUT_MS", "20000"))
 FEAS_TIMEOUT_MS = int(os.environ.get("PYDV_FEAS_TIMEOUT_MS", "3000"))
 MAX_PATHS = int(os.environ.get("PYDV_MAX_PATHS", "20000"))
+# wall-clock budget of one unit (seconds, from its start): exploration stops between paths once it is used up and the
+# unit is reported as not fully explored (undecided unless something was already refuted)
+UNIT_BUDGET_S = float(os.environ.get("PYDV_UNIT_BUDGET_S", "1500"))
+UNIT_START = [None]
 DEBUG_BRANCH = bool(os.environ.get("PYDV_DEBUG_BRANCH"))
 
 
@@ -278,6 +282,10 @@ def explore(run, max_paths=None, collect_returns=False):
         prefix = stack.pop()
         if res.paths >= max_paths:
             res.errors.append((prefix, "OutOfSubset: path budget %d exhausted" % max_paths))
+            break
+        if UNIT_START[0] is not None and time.time() - UNIT_START[0] > UNIT_BUDGET_S:
+            res.errors.append((prefix, "OutOfSubset: unit time budget %.0f s exhausted after %d paths (%d still open)"
+                               % (UNIT_BUDGET_S, res.paths, len(stack) + 1)))
             break
         c = Ctx(prefix)
         Ctx.cur = c
